@@ -1,14 +1,15 @@
 #!/bin/bash
 # usage: fuzz/run.sh <target> [runs] [extra libFuzzer args]   — coverage-guided campaign with the in-target oracle
 # exit 0 = no violation within the budget, 1 = crash artifact written (replay: ./check replay on {"property","section","bytes_hex"}), 2 = build problem
-cd /verif/harness/rdpcheck || exit 2
-F=/verif/fuzz
+ROOT="$(cd "$(dirname "$0")/.." && pwd)"
+cd "$ROOT/harness/rdpcheck" || exit 2
+F="$ROOT/fuzz"
 t="$1"; runs="${2:-200000}"; shift; shift
 export CARGO_NET_OFFLINE=true RUSTC_BOOTSTRAP=1 SSL_CERT_FILE=/dev/null SSL_CERT_DIR=/nonexistent
-cargo fuzz build --fuzz-dir /verif/fuzz "$t" >/tmp/fuzz-build.$$.log 2>&1 || { tail -20 /tmp/fuzz-build.$$.log; rm -f /tmp/fuzz-build.$$.log; exit 2; }
+cargo fuzz build --fuzz-dir "$F" "$t" >/tmp/fuzz-build.$$.log 2>&1 || { tail -20 /tmp/fuzz-build.$$.log; rm -f /tmp/fuzz-build.$$.log; exit 2; }
 rm -f /tmp/fuzz-build.$$.log
 mkdir -p $F/corpus/"$t"
-cargo fuzz run --fuzz-dir /verif/fuzz "$t" -- -runs="$runs" -seed="${VERIF_SEED:-1}" -len_control=0 -max_len=512 -print_final_stats=1 "$@" > $F/fuzz-"$t".log 2>&1; rc=$?
+cargo fuzz run --fuzz-dir "$F" "$t" -- -runs="$runs" -seed="${VERIF_SEED:-1}" -len_control=0 -max_len=512 -print_final_stats=1 "$@" > $F/fuzz-"$t".log 2>&1; rc=$?
 grep -E "stat::number_of_executed_units|cov:|VIOLATION" $F/fuzz-"$t".log | tail -4
 [ $rc -eq 0 ] && exit 0
 ls $F/artifacts/"$t"/ 2>/dev/null | tail -3
